@@ -207,6 +207,11 @@ func checkIO(prop, tier string, seed uint64, spec propSpec, start time.Time) int
 
 func writeEvidence(prop string, ev map[string]interface{}) {
 	dir := filepath.Join(verifDir(), "evidence")
+	if r := os.Getenv("VERIF_REPO"); r != "" && filepath.Clean(r) != "/repo" {
+		// a development run against some other tree (a seeded change in a
+		// scratch copy): /verif/evidence describes /repo only
+		dir = filepath.Join(os.TempDir(), "edsim-evidence-other-tree")
+	}
 	os.MkdirAll(dir, 0o755)
 	if err := writeJSON(filepath.Join(dir, prop+".json"), ev); err != nil {
 		infraf("write evidence: %v", err)
